@@ -15,6 +15,7 @@ mod c13;
 mod c14;
 mod c15;
 mod c16;
+mod c20;
 
 pub fn level_of(p: &str) -> &'static str {
     match p {
@@ -39,6 +40,7 @@ fn dispatch(ctx: &Ctx, replay: Option<&serde_json::Value>) {
         "C14" => c14::run(ctx, replay),
         "C15" => c15::run(ctx, replay),
         "C16" => c16::run(ctx, replay),
+        "C20" => c20::run(ctx, replay),
         p => {
             eprintln!("unknown property {p}");
             std::process::exit(2);
